@@ -145,4 +145,16 @@ theorem repair_idempotent_checks (c : Checks) : Fix.fixChecks (Fix.fixChecks c) 
 theorem repair_idempotent_sequence (now now' : Nat) (q : Sequence) :
     Fix.fixSeqFull now' (Fix.fixSeqFull now q) = Fix.fixSeqFull now q := Fix.fixSeqFull_idem now now' q
 
+/-! ### known finding D26, as a theorem about the (translated) repair -/
+
+/-- `fixChecks` only touches groups whose own status is Running — and `runChecksOnce` never sets a group's status
+    to Running — so a check action that was in flight at the crash is left Running by the repair (it is only
+    cleaned up if the group happens to be run again): the full statement "the repair leaves nothing Running" is
+    refuted for check groups by this witness. With `C09.translated_fixChecks` this is a statement about
+    recovery.go's own translation. -/
+def d26Witness : Checks := { status := .notStarted, actions := [{ status := .running, tStart := 3 }] }
+theorem check_action_inflight_not_repaired :
+    d26Witness.status ≠ .running ∧ (Fix.fixChecks d26Witness).actions.any (·.status == .running) = true := by
+  decide
+
 end Coercion.C10
